@@ -9,7 +9,7 @@ pub fn run(args: &Args) -> SubResult {
     let mut res = SubResult::new("C10", "c10_static");
     let thorough = args.thorough();
     let depth = if thorough { 6 } else { 5 };
-    res.bound = format!("keys k (types L reloadable, LS opt-out, V storable) and j; all histories of depth <= {depth} over 21 operations with deduplication on (source, cache contents, model graph, pinned set); constructors with_source / without_hot_reloading / source without hot-reloading support / source whose configure_hot_reloading keeps the sender and then fails; hash seeds 0,5");
+    res.bound = format!("keys k (types L reloadable, LS opt-out, V storable) and j; all histories of depth <= {depth} over 21 operations with deduplication on (source, cache contents, model graph, pinned set); constructors with_source / without_hot_reloading / source without hot-reloading support / source whose configure_hot_reloading keeps the sender and then fails; hash seeds 0,5; plus an 8-operation alphabet (insert / look up from a compound / remove / take / load / notified edit) to depth {} for the static-then-reloadable histories", depth + 1);
     res.rule = "explicit-state BFS to the depth bound; a state is re-reached by replaying its history on a fresh real cache; oracle after every op: pinned values (get_or_insert, opt-out types, caches without reloader) keep value and reload id NEVER".into();
     let moves = vec![
         mv("load L k", &["load L k"]),
@@ -45,6 +45,22 @@ pub fn run(args: &Args) -> SubResult {
             }
         }
     }
+    // a key that is first held as an inserted (static) value, then removed and loaded from the source:
+    // what looked it up while it was static must follow it once it is reloadable (small alphabet, deep)
+    let small = vec![
+        mv("goi L k", &["goi L k 77"]),
+        mv("goi L k (AnyCache view)", &["agoi L k 74"]),
+        mv("load N n", &["load N n"]),
+        mv("remove L k", &["remove L k"]),
+        mv("take L k", &["take L k"]),
+        mv("load L k", &["load L k"]),
+        mv("bump5", &["put k.l 5", "ev F:k.l", "hr"]),
+        mv("bump6", &["put k.l 6", "ev F:k.l", "hr"]),
+    ];
+    let n_main = cases.len();
+    for nscript in ["L:k", "C:k", "O:k"] {
+        cases.push(("hot", 0u64, nscript));
+    }
     let total = cases.len();
     vcommon::run_cases(args, res, total, std::time::Duration::from_secs(if thorough { 3000 } else { 300 }), |idx, res| {
         let (ctor, seed, nscript) = cases[idx];
@@ -65,6 +81,11 @@ pub fn run(args: &Args) -> SubResult {
             // removed key on its own)
             check_presence: nscript == "C:k" || nscript == "O:k",
         };
+        if idx >= n_main {
+            let s = Search { harness: "c10_static", cfg, init: vec![], moves: vec![small.clone()], depth: depth + 1, dedup: true, max_hist: if thorough { 400_000 } else { 40_000 } };
+            run_search(res, &s);
+            return;
+        }
         let s = Search { harness: "c10_static", cfg, init: vec![], moves: vec![moves.clone()], depth, dedup: true, max_hist: if thorough { 400_000 } else { 30_000 } };
         run_search(res, &s);
     })
